@@ -240,6 +240,8 @@ pub fn tree_calls(s: &Subject, others: &[Subject]) -> Vec<(String, String, &'sta
     // infallible converters: Display / Debug of every node and of the tree
     i!("node.to_string", "every live node".to_string(), |c: &mut Tree| { let mut k = 0; for x in 0..c.size() { if let Ok(nd) = c.get(&x) { k += nd.to_string().len() + format!("{nd:?}").len(); } } k });
     i!("tree.debug", String::new(), |c: &mut Tree| format!("{c:?}").len());
+    // ... and the equality the crate defines on nodes, over every pair of live nodes (never a panic; no property says what it must answer)
+    i!("node.eq", "every pair of live nodes".to_string(), |c: &mut Tree| { let mut k = 0; for x in 0..c.size() { for y in 0..c.size() { if let (Ok(a), Ok(b)) = (c.get(&x), c.get(&y)) { if a == b { k += 1; } } } } k });
     r!("print", String::new(), |c: &mut Tree| c.print());
     r!("print_debug", String::new(), |c: &mut Tree| c.print_debug());
     r!("to_file-unwritable", String::new(), |c: &mut Tree| c.to_file(std::path::Path::new("/nonexistent-dir/x.nwk")));
@@ -264,6 +266,10 @@ pub fn tree_calls(s: &Subject, others: &[Subject]) -> Vec<(String, String, &'sta
         r!("levelorder", a.clone(), |c: &mut Tree| c.levelorder(&x));
         r!("get_path_from_root", a.clone(), |c: &mut Tree| c.get_path_from_root(&x));
         rm!("prune", a.clone(), |c: &mut Tree| c.prune(&x));
+        // Node-level fallible operation: removing a child the node does not have is an error value
+        for &y in ids.iter().take(4) {
+            rm!("node.remove_child", format!("{x},{y}"), |c: &mut Tree| -> Result<(), ()> { match c.get_mut(&x) { Ok(n) => { let listed = n.children.contains(&y); let r = n.remove_child(&y); if r.is_ok() != listed { panic!("remove_child: Ok/Err does not follow the child list") } r.map_err(|_| ()) } Err(_) => Err(()) } });
+        }
         rm!("add_child", a.clone(), |c: &mut Tree| c.add_child(Node::new_named("Z"), x, Some(1.0)));
         // the node argument is a copy of a node of the tree itself (it arrives with that node's links)
         for &y in ids.iter().take(3) {
